@@ -7,7 +7,8 @@ type MacroRule struct {
 	Name string
 	Expr *LexerExpr
 
-	cycleDetect bool
+	cycleDetect   bool
+	cycleReported bool
 }
 
 func (r *MacroRule) RunPass(ctx *Context, pass Pass) {
@@ -21,11 +22,22 @@ func (r *MacroRule) RunPass(ctx *Context, pass Pass) {
 		}
 	}
 	r.Expr.RunPass(ctx, pass)
+
+	if pass == GenerateGrammar {
+		// Expand the macro once into a scratch mode so that a cycle is reported
+		// even when no token or fragment uses the macro.
+		ctx.CurrentLexerMode.Push(mode.New(""))
+		r.NFACons(ctx)
+		ctx.CurrentLexerMode.Pop()
+	}
 }
 
 func (r *MacroRule) NFACons(ctx *Context) *mode.NFAComposite {
 	if r.cycleDetect {
-		ctx.Errs.Errorf(ctx.Position(r), "macro cycle detected")
+		if !r.cycleReported {
+			r.cycleReported = true
+			ctx.Errs.Errorf(ctx.Position(r), "macro cycle detected")
+		}
 		nfaFactory := ctx.Mode().StateFactory
 		nfaCons := &mode.NFAComposite{B: nfaFactory.NewState()}
 		nfaCons.E = nfaCons.B
